@@ -15,6 +15,9 @@ import Thanos.Model.Postings
         blocks = `res:mint:maxt:keep` joined by `,` (`-` = none), in the order they are added; the id of a
         block is its position.  keep = 1/0 = outcome of matchRelabelLabels on the block.
       -> `ok f=<failed adds> <res:mint:maxt joined by ;> <sorted ids joined by ,>` | `panic`
+    bs.hist <blocks> <ops> <mint> <maxt> <maxres>
+        ops = `a<i>` (add block i) / `r<i>` (remove block i by id) joined by `,`: a history of the block set
+      -> as bs.getfor
 
   C08 / C07 / C10 (names and values are ranks, value 0 = empty; encodings as in harness/cmd/stores/e2e.go)
     lbl.extend <lset> <ext>   lbl.rm <lset> <names>   lbl.serve <raw> <ext> <without>
@@ -254,7 +257,25 @@ def zipIdx (xs : List Int) : List Frames.Chunk :=
     | i, x :: r => (i, x) :: go (i + 1) r
   go 0 xs
 
+def parseOps (bs : List BlockSet.Block) (s : String) : Option (List BlockSet.Op) :=
+  (listOf ',' s).mapM fun t =>
+    match (t.drop 1).toNat? with
+    | some i =>
+      if t.startsWith "a" then (bs[i]?).map BlockSet.Op.add
+      else if t.startsWith "r" then some (BlockSet.Op.remove i)
+      else none
+    | none => none
+
 def handle : List String → String
+  | ["bs.hist", blocks, ops, mint, maxt, maxres] =>
+    match parseBlocks blocks, parseInt? mint, parseInt? maxt, parseInt? maxres with
+    | some bs, some mint, some maxt, some maxres =>
+      match parseOps bs ops with
+      | some ops =>
+        let (s, failed) := BlockSet.run BlockSet.empty ops
+        showGetFor failed (BlockSet.getFor true true s mint maxt maxres)
+      | none => "bad-op"
+    | _, _, _, _ => "bad-op"
   | ["lbl.extend", a, b] =>
     match parseLabels a, parseLabels b with
     | some a, some b => showLabels (Labels.extendSorted a b)
